@@ -15,12 +15,12 @@ def _stages(tier):
     if tier == 'thorough':
         tsan = [dict(name='tsan-%d' % i, harness='h_mt', flavour='tsan', cases=220, single_process=True, idle_timeout=200,
                      args={'base': 1000 * i, 'reps': 4}) for i in range(4)]
-        opt = [dict(name='opt-%d' % i, harness='h_mt', flavour='opt', cases=800, single_process=True, idle_timeout=200,
+        opt = [dict(name='opt-%d' % i, harness='h_mt', flavour='opt', cases=800, single_process=True, idle_timeout=1500,
                     args={'base': 100000 + 10000 * i, 'reps': 12}) for i in range(2)]
         return tsan + opt
     tsan = [dict(name='tsan-%d' % i, harness='h_mt', flavour='tsan', cases=20, single_process=True, idle_timeout=200,
                  args={'base': 1000 * i, 'reps': 3}) for i in range(3)]
-    opt = [dict(name='opt-%d' % i, harness='h_mt', flavour='opt', cases=60, single_process=True, idle_timeout=200,
+    opt = [dict(name='opt-%d' % i, harness='h_mt', flavour='opt', cases=60, single_process=True, idle_timeout=1500,
                 args={'base': 100000 + 10000 * i, 'reps': 8}) for i in range(2)]
     return tsan + opt
 
@@ -29,7 +29,7 @@ def _minima(tier):
     # about one fifth of what a quick run observes on this machine (thorough: x8); a run that interleaved less is inconclusive
     f = 8 if tier == 'thorough' else 1
     m = {
-        'cases': 170,
+        'cases': 150,
         'distinct:interleaving': 600,
         'runs.concurrent': 800,
         'digest.compared': 8000,
